@@ -232,7 +232,11 @@ where
 {
     /// Returns `(usable, sorted keys stored in the index)`.
     pub(in crate::core) fn verif_entries(&self) -> (bool, Vec<K>) {
-        let mut keys: Vec<K> = self.cells.values().flat_map(|b| b.iter().copied()).collect();
+        let mut keys: Vec<K> = self
+            .cells
+            .values()
+            .flat_map(|b| b.iter().copied())
+            .collect();
         keys.sort_unstable();
         (self.usable, keys)
     }
